@@ -23,15 +23,40 @@
     #[derive(Clone)]
     struct Backend { body: Vec<u8>, with_length: bool, initial_window: Option<u32>, connection_bonus: u32, served: Arc<AtomicUsize>, uploaded: Arc<AtomicUsize>, events: Arc<Mutex<Vec<String>>> }
 
-    fn respond(conn: &mut TcpStream, sid: u32, b: &Backend) {
+    /// what sozu lets this backend send: the connection window, the stream windows, and the answers still being sent
+    struct SendSide { initial: i64, connection: i64, streams: HashMap<u32, i64>, pending: Vec<(u32, usize)> }
+
+    fn respond(conn: &mut TcpStream, sid: u32, b: &Backend, tx: &mut SendSide) {
         let mut hb = vec![0x88u8];   // :status 200 (static table)
         if b.with_length { lit(&mut hb, b"content-length", b.body.len().to_string().as_bytes()); }
-        let mut out = frame(0x1, 0x4, sid, &hb);
-        let chunks: Vec<&[u8]> = b.body.chunks(16_384).collect();
-        for (i, c) in chunks.iter().enumerate() { out.extend_from_slice(&frame(0x0, if i + 1 == chunks.len() { 0x1 } else { 0 }, sid, c)); }
-        if chunks.is_empty() { out.extend_from_slice(&frame(0x0, 0x1, sid, &[])); }
-        let _ = conn.write_all(&out);
-        b.served.fetch_add(1, Ordering::SeqCst);
+        let _ = conn.write_all(&frame(0x1, 0x4, sid, &hb));
+        let initial = tx.initial;
+        tx.streams.entry(sid).or_insert(initial);
+        tx.pending.push((sid, 0));
+        pump(conn, b, tx);
+    }
+
+    /// send as much of the pending answers as sozu's advertised windows allow (this backend never exceeds them)
+    fn pump(conn: &mut TcpStream, b: &Backend, tx: &mut SendSide) {
+        let mut k = 0;
+        while k < tx.pending.len() {
+            let (sid, mut off) = tx.pending[k];
+            let mut finished = false;
+            loop {
+                let remaining = b.body.len() - off;
+                if remaining == 0 { if b.body.is_empty() { let _ = conn.write_all(&frame(0x0, 0x1, sid, &[])); } finished = true; break; }
+                let avail = tx.connection.min(*tx.streams.get(&sid).unwrap_or(&0)).min(16_384).min(remaining as i64);
+                if avail <= 0 { break; }
+                let n = avail as usize;
+                let last = off + n == b.body.len();
+                let _ = conn.write_all(&frame(0x0, if last { 0x1 } else { 0 }, sid, &b.body[off..off + n]));
+                off += n;
+                tx.connection -= avail;
+                *tx.streams.get_mut(&sid).unwrap() -= avail;
+                if last { finished = true; break; }
+            }
+            if finished { tx.pending.remove(k); b.served.fetch_add(1, Ordering::SeqCst); } else { tx.pending[k].1 = off; k += 1; }
+        }
     }
 
     /// one h2c connection: every request stream is answered 200 with `body`
@@ -48,6 +73,7 @@
         let mut settings_acked = false;
         let (mut granted, mut received): (HashMap<u32, u64>, HashMap<u32, u64>) = (HashMap::new(), HashMap::new());
         let (mut conn_granted, mut conn_received) = (65_535u64 + b.connection_bonus as u64, 0u64);
+        let mut tx = SendSide { initial: 65_535, connection: 65_535, streams: HashMap::new(), pending: Vec::new() };
         loop {
             let mut h = [0u8; 9];
             if conn.read_exact(&mut h).is_err() { return; }
@@ -58,7 +84,20 @@
             if conn.read_exact(&mut payload).is_err() { return; }
             if std::env::var("VERIF_NATIVE_DEBUG").is_ok() { println!("  backend <- frame type {kind} flags {flags:#x} stream {sid} len {len}"); }
             match kind {
-                0x4 if flags & 0x1 == 0 => { let _ = conn.write_all(&frame(0x4, 0x1, 0, &[])); }
+                0x4 if flags & 0x1 == 0 => {
+                    // sozu's SETTINGS: SETTINGS_INITIAL_WINDOW_SIZE (0x4) moves every stream window by the difference
+                    for e in payload.chunks(6) { if e.len() == 6 && u16::from_be_bytes([e[0], e[1]]) == 4 {
+                        let v = u32::from_be_bytes([e[2], e[3], e[4], e[5]]) as i64;
+                        for w in tx.streams.values_mut() { *w += v - tx.initial; }
+                        tx.initial = v;
+                    } }
+                    let _ = conn.write_all(&frame(0x4, 0x1, 0, &[]));
+                }
+                0x8 if len == 4 => {
+                    let inc = (u32::from_be_bytes([payload[0], payload[1], payload[2], payload[3]]) & 0x7fff_ffff) as i64;
+                    if sid == 0 { tx.connection += inc; } else { let initial = tx.initial; *tx.streams.entry(sid).or_insert(initial) += inc; }
+                    pump(&mut conn, &b, &mut tx);
+                }
                 0x4 => { settings_acked = true; }
                 0x6 if flags & 0x1 == 0 => { let _ = conn.write_all(&frame(0x6, 0x1, 0, &payload)); }
                 0x3 => { b.events.lock().unwrap().push(format!("RST_STREAM stream {sid} code {}", u32::from_be_bytes([payload[0], payload[1], payload[2], payload[3]]))); }
@@ -82,9 +121,9 @@
                     if flags & 0x1 == 0 && *r >= *g { out.extend_from_slice(&frame(0x8, 0, sid, &(w as u32).to_be_bytes())); *g += w; }
                     if conn_received >= conn_granted { out.extend_from_slice(&frame(0x8, 0, 0, &65_535u32.to_be_bytes())); conn_granted += 65_535; }
                     if !out.is_empty() { let _ = conn.write_all(&out); }
-                    if flags & 0x1 != 0 { respond(&mut conn, sid, &b); }
+                    if flags & 0x1 != 0 { respond(&mut conn, sid, &b, &mut tx); }
                 }
-                0x1 if flags & 0x1 != 0 => { respond(&mut conn, sid, &b); }
+                0x1 if flags & 0x1 != 0 => { respond(&mut conn, sid, &b, &mut tx); }
                 _ => {}
             }
         }
@@ -142,8 +181,8 @@
         let mode_keepalive = std::env::var("VERIF_NATIVE_ARGS").map(|a| a.contains("keepalive")).unwrap_or(false) || !mode_flow;
         let (mut n, mut answered, mut fails): (u64, u64, Vec<(String, String)>) = (0, 0, Vec::new());
         // ---- HTTP/1.1 front
-        for (with_length, body_len, post_len, initial_window) in [(true, 5usize, 0usize, None), (false, 5, 0, None), (true, 40_000, 0, None), (true, 5, 3, None), (true, 5, 5_000, Some(1_000u32)), (true, 5, 100_000, Some(70_000u32))] {
-            if (initial_window.is_some() && !mode_flow) || (initial_window.is_none() && !mode_keepalive) { continue; }
+        for (with_length, body_len, post_len, initial_window, flow) in [(true, 5usize, 0usize, None, false), (false, 5, 0, None, false), (true, 40_000, 0, None, false), (true, 5, 3, None, false), (true, 5, 5_000, Some(1_000u32), true), (true, 5, 100_000, Some(70_000u32), true), (true, 1_000_000, 0, None, true), (false, 300_000, 0, None, true)] {
+            if (flow && !mode_flow) || (!flow && !mode_keepalive) { continue; }
             let front_address = create_local_address();
             let (config, listeners, state) = Worker::empty_config();
             let (mut worker, backends) = setup_test("VERIF-H1H2", config, listeners, state, front_address, 1, false);
@@ -230,6 +269,6 @@
             let _ = worker.wait_for_server_stop();
         }
         let fl: Vec<String> = fails.iter().map(|(i, o)| format!("{{\"input\": {:?}, \"observed\": {:?}}}", i, o)).collect();
-        let bound = if mode_flow { format!("3 scenarios x {per_connection} requests through a real worker to an h2c backend that accounts every flow-controlled octet: HTTP/1.1 keep-alive clients uploading 5000 / 100000 octets against a backend stream window of 1000 / 70000, and an HTTP/2 client with a 1 MiB stream window uploading 60000 octets per stream against a backend stream window of 10000") } else { format!("4 scenarios x {per_connection} requests one after the other on one keep-alive HTTP/1.1 connection through a real worker to an h2c backend (GET / POST, responses with / without content-length, 5 and 40000 octets)") };
+        let bound = if mode_flow { format!("5 scenarios x {per_connection} requests through a real worker to an h2c backend that accounts every flow-controlled octet it receives and never exceeds the windows sozu advertises: HTTP/1.1 keep-alive clients uploading 5000 / 100000 octets against a backend stream window of 1000 / 70000 and downloading 1000000 / 300000 octets (sozu must replenish its windows), and an HTTP/2 client with a 1 MiB stream window uploading 60000 octets per stream against a backend stream window of 10000") } else { format!("4 scenarios x {per_connection} requests one after the other on one keep-alive HTTP/1.1 connection through a real worker to an h2c backend (GET / POST, responses with / without content-length, 5 and 40000 octets)") };
         println!("{{\"bound\": \"{bound}\", \"states\": {n}, \"pairs\": {n}, \"nontrivial_pairs\": {answered}, \"failures\": [{}]}}", fl.join(", "));
     }
